@@ -38,6 +38,57 @@ def impl_mi_history(pairs, r=1.0, cc=False):
     return out
 
 
+VIEW_MODES = ['lag1', 'lag2', 'same-start', 'same-start-swapped', 'reversed', 'matrix']
+
+
+def series_views(series, mode):
+    """two int32 VIEWS of one buffer (a library caller scoring a series against its own lags, a matrix row against a column, …):
+    they share memory cells, may start at the same address with different strides, or run in opposite directions"""
+    import numpy as np
+    b = np.asarray(series, dtype=np.int32)
+    if mode == 'lag1':
+        return b[1:], b[:-1]
+    if mode == 'lag2':
+        return b[2:], b[:-2]
+    if mode == 'same-start':
+        k = len(b) // 2
+        return b[:2 * k:2], b[:k]
+    if mode == 'same-start-swapped':
+        k = len(b) // 2
+        return b[:k], b[:2 * k:2]
+    if mode == 'reversed':
+        return b[::-1][:-1], b[:-1]
+    q = max(1, int(len(b) ** 0.5))
+    M = b[:q * q].reshape(q, q)
+    return M[0, :], M[:, 0]
+
+
+def gen_series(rng):
+    n = rng.choice([3, 4, 6, 9, 16, 25, 64, 200, 800])
+    codes = rng.choice([[0, 1], [0, 1, 2, 3], [1, 2, 3, 5], [17, 4242, 90001, 1000003 % 2 ** 20], list(range(20)), [7, 7000, 5, 900000]])
+    if rng.random() < 0.5:                      # a Markov chain: consecutive values are dependent
+        s = [rng.choice(codes)]
+        for _ in range(n - 1):
+            s.append(s[-1] if rng.random() < 0.6 else rng.choice(codes))
+    else:
+        s = [rng.choice(codes) for _ in range(n)]
+    return s
+
+
+def impl_mi_views(series, mode, r=1.0, cc=False):
+    """returns (score on the views, contents of the Y view, contents of the X view, buffer unchanged by the call)"""
+    import numpy as np
+    from outrank.algorithms.feature_ranking import ranking_mi_numba as m
+    Yv, Xv = series_views(series, mode)
+    Y, X = Yv.tolist(), Xv.tolist()
+    base = Yv.base if Yv.base is not None else Yv
+    while getattr(base, 'base', None) is not None:
+        base = base.base
+    before = base.copy()
+    v = float(m.mutual_info_estimator_numba(Yv, Xv, np.float32(r), bool(cc)))
+    return v, Y, X, bool(np.array_equal(before, base))
+
+
 def est_line(Y, X, r=Fraction(1), cc=False):
     return line(Atom('MI'), Atom('est'), list(Y), list(X), r.numerator, r.denominator, bool(cc))
 
